@@ -21,9 +21,9 @@ def _stored_names(target):
     return [n.id for n in ast.walk(target) if isinstance(n, ast.Name)]
 
 
-def to_lean(expr_src, names, objs):
-    """names: {name: python value} (arguments > closure > globals, already merged).
-    Returns the driver input dict or None."""
+def to_lean(expr_src, names, objs, lookups=None):
+    """names: {name: python value} (arguments > closure > globals, already merged); lookups: the three
+    dictionaries separately (the model merges them itself).  Returns the driver input dict or None."""
     if "\n" in expr_src:
         return None
     try:
@@ -146,6 +146,16 @@ def to_lean(expr_src, names, objs):
             comp_vals.append([i, j])
         except Exception:  # noqa: B902
             comp_vals.append([i, None])
-    return {"dom": "expr", "expr": e, "names": name_vals, "builtins": [b for b in BUILTINS if b not in names],
+    lk = None
+    if lookups is not None:
+        lk = []
+        for d in lookups:
+            items = []
+            for k, v in d.items():
+                j = implexpr.to_val(v, objs)
+                if j is not None:
+                    items.append([k, j])
+            lk.append(items)
+    return {"dom": "expr", "expr": e, "names": name_vals, **({"lookups": lk} if lk is not None else {}), "builtins": [b for b in BUILTINS if b not in names],
             "attrs": attrs, "comps": comp_vals, "texts": [[i, t] for i, t in sorted(texts.items())],
             "lookupNames": sorted(names.keys())}
